@@ -2,9 +2,12 @@ import GenlmModel.Proofs.Struct
 import GenlmModel.Proofs.Basic
 import GenlmModel.Proofs.SepStart
 import GenlmModel.Proofs.Norm
+import Mathlib.Algebra.BigOperators.Ring.List
+import Mathlib.Tactic.Ring
 
 /-! Semantic preservation of the grammar transformations (property C06): `trim`, `cotrim` and
-`separate_start` do not change the weight `WN … n S x` of any string at any level. -/
+`separate_start` do not change the weight `WN … n S x` of any string at any level; `unfold` keeps
+the level-indexed approximations cofinal (`unfold_preserves`). -/
 namespace Genlm
 set_option linter.unusedSectionVars false
 section
@@ -176,6 +179,375 @@ theorem separateStart_old (G : CFG σ K) (fresh : σ) (hf : Fresh G fresh) (n : 
 
 end
 
+/-! ### 12. `unfold` -/
+section Unfold
+variable {σ K : Type} [DecidableEq σ] [CommSemiring K] [DecidableEq K]
+
+/-- the natural (algebraic) preorder of a semiring: `b` is `a` plus something -/
+def NatLe (a b : K) : Prop := ∃ c, b = a + c
+
+@[inherit_doc] scoped infix:50 " ≼ " => NatLe
+
+namespace UnfoldAux
+
+theorem le_rfl' (a : K) : a ≼ a := ⟨0, (add_zero a).symm⟩
+theorem le_of_eq' {a b : K} (h : a = b) : a ≼ b := h ▸ le_rfl' a
+theorem zero_le' (a : K) : (0 : K) ≼ a := ⟨a, (zero_add a).symm⟩
+theorem le_trans' {a b c : K} (h1 : a ≼ b) (h2 : b ≼ c) : a ≼ c := by
+  obtain ⟨d, rfl⟩ := h1; obtain ⟨e, rfl⟩ := h2; exact ⟨d + e, add_assoc _ _ _⟩
+theorem add_le' {a a' b b' : K} (h1 : a ≼ a') (h2 : b ≼ b') : a + b ≼ a' + b' := by
+  obtain ⟨d, rfl⟩ := h1; obtain ⟨e, rfl⟩ := h2; exact ⟨d + e, by ring⟩
+theorem mul_le' {a a' b b' : K} (h1 : a ≼ a') (h2 : b ≼ b') : a * b ≼ a' * b' := by
+  obtain ⟨d, rfl⟩ := h1; obtain ⟨e, rfl⟩ := h2; exact ⟨a * e + d * b + d * e, by ring⟩
+
+theorem sum_le' {α : Type} (l : List α) (f g : α → K) (h : ∀ a ∈ l, f a ≼ g a) :
+    (l.map f).sum ≼ (l.map g).sum := by
+  induction l with
+  | nil => exact le_rfl' _
+  | cons a l ih =>
+    simp only [List.map_cons, List.sum_cons]
+    exact add_le' (h a (by simp)) (ih (fun b hb => h b (by simp [hb])))
+
+theorem Wsym_le (V : List σ) (f g : σ → List σ → K) (s : σ) (h : ∀ u, f s u ≼ g s u)
+    (u : List σ) : Wsym V f s u ≼ Wsym V g s u := by
+  unfold Wsym; split
+  · exact le_rfl' _
+  · exact h u
+
+theorem Wbody_le (V : List σ) (f g : σ → List σ → K) (body : List σ)
+    (h : ∀ s ∈ body, ∀ u, f s u ≼ g s u) (x : List σ) : Wbody V f body x ≼ Wbody V g body x := by
+  induction body generalizing x with
+  | nil => exact le_rfl' _
+  | cons s ss ih =>
+    simp only [Wbody, lsum_eq_sum]
+    apply sum_le'
+    intro p _
+    exact mul_le' (Wsym_le V f g s (h s (by simp)) p.1) (ih (fun s' hs' => h s' (by simp [hs'])) p.2)
+
+/-- one step of the `WN` recursion over an arbitrary rule list and table -/
+def stepL (V : List σ) (rs : List (Rule σ K)) (f : σ → List σ → K) (X : σ) (x : List σ) : K :=
+  ((rs.filter (fun r => r.head = X)).map fun r => r.w * Wbody V f r.body x).sum
+
+theorem WN_succ (G : CFG σ K) (n : Nat) (X : σ) (x : List σ) :
+    WN G (n+1) X x = stepL G.V G.rules (WN G n) X x := by
+  simp only [WN, lsum_eq_sum, stepL]
+
+theorem stepL_le (V : List σ) (rs : List (Rule σ K)) (f g : σ → List σ → K)
+    (h : ∀ s u, f s u ≼ g s u) (X : σ) (x : List σ) : stepL V rs f X x ≼ stepL V rs g X x := by
+  unfold stepL
+  apply sum_le'
+  intro r _
+  exact mul_le' (le_rfl' _) (Wbody_le V f g r.body (fun s _ u => h s u) x)
+
+theorem stepL_append (V : List σ) (rs rs' : List (Rule σ K)) (f : σ → List σ → K) (X : σ)
+    (x : List σ) : stepL V (rs ++ rs') f X x = stepL V rs f X x + stepL V rs' f X x := by
+  simp [stepL, List.filter_append]
+
+theorem stepL_perm (V : List σ) {rs rs' : List (Rule σ K)} (hp : rs.Perm rs')
+    (f : σ → List σ → K) (X : σ) (x : List σ) : stepL V rs f X x = stepL V rs' f X x :=
+  ((hp.filter _).map _).sum_eq
+
+theorem stepL_mkRules (V : List σ) (rs : List (Rule σ K)) (f : σ → List σ → K) (X : σ)
+    (x : List σ) : stepL V (mkRules rs) f X x = stepL V rs f X x := by
+  unfold stepL mkRules
+  have hR : (rs.filter (fun r => decide (r.w ≠ 0))).filter (fun r => decide (r.head = X))
+      = (rs.filter (fun r => decide (r.head = X))).filter (fun r => decide (r.w ≠ 0)) := by
+    simp only [List.filter_filter]
+    apply List.filter_congr; intro r _; exact Bool.and_comm _ _
+  rw [hR]
+  refine (sum_filter_of_zero _ _ _ ?_).symm
+  intro r _ hr
+  have : r.w = 0 := by simpa using hr
+  rw [this, zero_mul]
+
+theorem stepL_cons (V : List σ) (s : Rule σ K) (rs : List (Rule σ K)) (f : σ → List σ → K) (X : σ)
+    (x : List σ) : stepL V (s :: rs) f X x
+      = (if s.head = X then s.w * Wbody V f s.body x else 0) + stepL V rs f X x := by
+  unfold stepL
+  by_cases h : s.head = X
+  · rw [List.filter_cons_of_pos (by simpa using h), if_pos h]; simp
+  · rw [List.filter_cons_of_neg (by simpa using h), if_neg h, zero_add]
+
+/-- `WN` grows with the level -/
+theorem WN_le_succ (G : CFG σ K) (n : Nat) (X : σ) (x : List σ) : WN G n X x ≼ WN G (n+1) X x := by
+  induction n generalizing X x with
+  | zero => exact zero_le' _
+  | succ n ih =>
+    rw [WN_succ, WN_succ]
+    exact stepL_le _ _ _ _ (fun s u => ih s u) X x
+
+theorem WN_le_of_le (G : CFG σ K) {n m : Nat} (h : n ≤ m) (X : σ) (x : List σ) :
+    WN G n X x ≼ WN G m X x := by
+  induction h with
+  | refl => exact le_rfl' _
+  | step _ ih => exact le_trans' ih (WN_le_succ G _ X x)
+
+/-! splitting a string in three -/
+
+theorem sum_splits_left_nil' {α : Type} [DecidableEq α] (x : List α) (F : List α → K) :
+    ((splits x).map fun p => (if p.1 = [] then 1 else 0) * F p.2).sum = F x := by
+  cases x with
+  | nil => simp [splits]
+  | cons b t =>
+    simp only [splits, List.map_cons, List.sum_cons, List.map_map, Function.comp_def]
+    rw [sum_map_zero _ _ (fun p _ => by simp), add_zero]
+    simp
+
+/-- associativity of `splits`: cutting the right part again = cutting the left part again -/
+theorem splits_assoc {α : Type} (x : List α) (F : List α → List α → List α → K) :
+    ((splits x).map fun p => ((splits p.2).map fun q => F p.1 q.1 q.2).sum).sum
+      = ((splits x).map fun p => ((splits p.1).map fun q => F q.1 q.2 p.2).sum).sum := by
+  induction x generalizing F with
+  | nil => simp [splits]
+  | cons a xs ih =>
+    simp only [splits, List.map_cons, List.sum_cons, List.map_map, Function.comp_def, List.map_nil,
+      List.sum_nil, add_zero]
+    rw [List.sum_map_add, ih (fun u v w => F (a :: u) v w)]
+    rw [add_assoc]
+
+theorem Wbody_append (V : List σ) (f : σ → List σ → K) (α β : List σ) (x : List σ) :
+    Wbody V f (α ++ β) x = ((splits x).map fun p => Wbody V f α p.1 * Wbody V f β p.2).sum := by
+  induction α generalizing x with
+  | nil =>
+    simp only [List.nil_append, Wbody]
+    exact (sum_splits_left_nil' x (fun v => Wbody V f β v)).symm
+  | cons s ss ih =>
+    simp only [List.cons_append, Wbody, lsum_eq_sum]
+    have h1 : ∀ p ∈ splits x, Wsym V f s p.1 * Wbody V f (ss ++ β) p.2
+        = ((splits p.2).map fun q => Wsym V f s p.1 * Wbody V f ss q.1 * Wbody V f β q.2).sum := by
+      intro p _
+      rw [ih, ← List.sum_map_mul_left]
+      congr 1; apply List.map_congr_left; intro q _; ring
+    rw [List.map_congr_left h1, splits_assoc x (fun u v w => Wsym V f s u * Wbody V f ss v * Wbody V f β w)]
+    congr 1; apply List.map_congr_left; intro p _
+    rw [← List.sum_map_mul_right]
+
+/-- `α`, a middle part with weight function `m`, `β` -/
+def mid3 (V : List σ) (fa : σ → List σ → K) (m : List σ → K) (fb : σ → List σ → K)
+    (α β : List σ) (x : List σ) : K :=
+  ((splits x).map fun p => Wbody V fa α p.1 *
+    ((splits p.2).map fun q => m q.1 * Wbody V fb β q.2).sum).sum
+
+theorem Wbody_mid_sym (V : List σ) (f : σ → List σ → K) (α β : List σ) (y : σ) (hy : y ∉ V)
+    (x : List σ) : Wbody V f (α ++ y :: β) x = mid3 V f (f y) f α β x := by
+  rw [Wbody_append]
+  unfold mid3
+  congr 1; apply List.map_congr_left; intro p _
+  simp only [Wbody, lsum_eq_sum, Wsym, if_neg hy]
+
+theorem Wbody_mid_body (V : List σ) (g : σ → List σ → K) (α ρ β : List σ) (x : List σ) :
+    Wbody V g (α ++ ρ ++ β) x = mid3 V g (Wbody V g ρ) g α β x := by
+  rw [List.append_assoc, Wbody_append]
+  unfold mid3
+  congr 1; apply List.map_congr_left; intro p _
+  rw [Wbody_append]
+
+theorem mid3_le (V : List σ) (fa ga : σ → List σ → K) (m m' : List σ → K) (fb gb : σ → List σ → K)
+    (α β : List σ) (ha : ∀ s u, fa s u ≼ ga s u) (hm : ∀ v, m v ≼ m' v)
+    (hb : ∀ s u, fb s u ≼ gb s u) (x : List σ) :
+    mid3 V fa m fb α β x ≼ mid3 V ga m' gb α β x := by
+  unfold mid3
+  apply sum_le'; intro p _
+  apply mul_le' (Wbody_le V fa ga α (fun s _ u => ha s u) p.1)
+  apply sum_le'; intro q _
+  exact mul_le' (hm q.1) (Wbody_le V fb gb β (fun s _ u => hb s u) q.2)
+
+/-- `mid3` is linear in the middle weight function -/
+theorem mid3_sum {ι : Type} (V : List σ) (fa fb : σ → List σ → K) (α β : List σ) (R : List ι)
+    (c : ι → K) (m : ι → List σ → K) (x : List σ) :
+    mid3 V fa (fun v => (R.map fun r => c r * m r v).sum) fb α β x
+      = (R.map fun r => c r * mid3 V fa (m r) fb α β x).sum := by
+  induction R with
+  | nil => simp [mid3]
+  | cons r R ih =>
+    simp only [List.map_cons, List.sum_cons]
+    rw [← ih]
+    unfold mid3
+    rw [← List.sum_map_mul_left, ← List.sum_map_add]
+    congr 1; apply List.map_congr_left; intro p _
+    have inner : ((splits p.2).map fun q =>
+          (c r * m r q.1 + (R.map fun r => c r * m r q.1).sum) * Wbody V fb β q.2).sum
+        = c r * ((splits p.2).map fun q => m r q.1 * Wbody V fb β q.2).sum
+          + ((splits p.2).map fun q => (R.map fun r => c r * m r q.1).sum * Wbody V fb β q.2).sum := by
+      rw [← List.sum_map_mul_left, ← List.sum_map_add]
+      congr 1; apply List.map_congr_left; intro q _
+      ring
+    beta_reduce
+    rw [inner]
+    ring
+
+/-! list bookkeeping for `unfoldRule` -/
+
+theorem zipIdx_filter_ne_of_lt {α : Type} (l : List α) (off t : Nat) (h : t < off) :
+    ((l.zipIdx off).filter (fun p => p.2 ≠ t)).map (·.1) = l := by
+  induction l generalizing off with
+  | nil => rfl
+  | cons a l ih =>
+    rw [List.zipIdx_cons, List.filter_cons_of_pos (by simp; omega), List.map_cons,
+      ih (off + 1) (by omega)]
+
+theorem zipIdx_filter_ne {α : Type} (l : List α) (off i : Nat) :
+    ((l.zipIdx off).filter (fun p => p.2 ≠ off + i)).map (·.1) = l.eraseIdx i := by
+  induction l generalizing off i with
+  | nil => rfl
+  | cons a l ih =>
+    rw [List.zipIdx_cons]
+    cases i with
+    | zero =>
+      rw [List.filter_cons_of_neg (by simp), List.eraseIdx_cons_zero]
+      exact zipIdx_filter_ne_of_lt l (off + 1) (off + 0) (by omega)
+    | succ i =>
+      rw [List.filter_cons_of_pos (by simp), List.map_cons, List.eraseIdx_cons_succ,
+        show off + (i + 1) = (off + 1) + i by omega, ih]
+
+theorem others_perm {α : Type} (l : List α) (i : Nat) (s : α) (h : l[i]? = some s) :
+    l.Perm (s :: ((l.zipIdx.filter (fun p => p.2 ≠ i)).map (·.1))) := by
+  obtain ⟨hi, rfl⟩ := List.getElem?_eq_some_iff.mp h
+  have := zipIdx_filter_ne l 0 i
+  rw [Nat.zero_add] at this
+  rw [this]
+  exact (List.getElem_cons_eraseIdx_perm hi).symm
+
+theorem body_split {α : Type} (b : List α) (k : Nat) (y : α) (h : b[k]? = some y) :
+    b = b.take k ++ y :: b.drop (k + 1) := by
+  obtain ⟨hk, rfl⟩ := List.getElem?_eq_some_iff.mp h
+  rw [← List.drop_eq_getElem_cons hk, List.take_append_drop]
+
+/-- what `unfoldRule` returns, spelled out -/
+theorem unfoldRule_inv {G G' : CFG σ K} {i k : Nat} (h : unfoldRule G i k = some G') :
+    ∃ s y, G.rules[i]? = some s ∧ s.body[k]? = some y ∧ y ∉ G.V ∧
+      G' = { S := G.S, V := G.V,
+             rules := mkRules (((G.rules.zipIdx.filter (fun p => p.2 ≠ i)).map (·.1)) ++
+               (G.rules.filter (fun r => r.head = y)).map fun r =>
+                 (⟨s.w * r.w, s.head, s.body.take k ++ r.body ++ s.body.drop (k+1)⟩ : Rule σ K)) } := by
+  unfold unfoldRule at h
+  split at h
+  · exact absurd h (by simp)
+  · next s hs =>
+    split at h
+    · exact absurd h (by simp)
+    · next y hy =>
+      split at h
+      · exact absurd h (by simp)
+      · next hV =>
+        refine ⟨s, y, hs, hy, hV, ?_⟩
+        exact (Option.some.inj h).symm
+
+theorem stepL_news (V : List σ) (R : List (Rule σ K)) (c : K) (hd : σ) (α β : List σ)
+    (g : σ → List σ → K) (X : σ) (x : List σ) :
+    stepL V (R.map fun r => (⟨c * r.w, hd, α ++ r.body ++ β⟩ : Rule σ K)) g X x
+      = if hd = X then (R.map fun r => (c * r.w) * Wbody V g (α ++ r.body ++ β) x).sum else 0 := by
+  induction R with
+  | nil => simp [stepL]
+  | cons r R ih =>
+    rw [List.map_cons, stepL_cons, ih]
+    by_cases h : hd = X
+    · simp [h]
+    · simp [h]
+
+/-- the unfolded rule's contribution, rewritten over the rules `R` of the unfolded symbol -/
+theorem s_term (V : List σ) (f f' : σ → List σ → K) (c : K) (α β : List σ) (y : σ) (hy : y ∉ V)
+    (R : List (Rule σ K)) (hfy : ∀ v, f y v = (R.map fun r => r.w * Wbody V f' r.body v).sum)
+    (x : List σ) :
+    c * Wbody V f (α ++ y :: β) x
+      = (R.map fun r => (c * r.w) * mid3 V f (Wbody V f' r.body) f α β x).sum := by
+  have hf : f y = fun v => (R.map fun r => r.w * Wbody V f' r.body v).sum := funext hfy
+  rw [Wbody_mid_sym V f α β y hy, hf,
+    mid3_sum V f f α β R (fun r => r.w) (fun r => Wbody V f' r.body) x, ← List.sum_map_mul_left]
+  congr 1; apply List.map_congr_left; intro r _
+  rw [mul_assoc]
+
+end UnfoldAux
+open UnfoldAux
+
+/-- the two one-step decompositions shared by both directions -/
+theorem unfold_steps {G G' : CFG σ K} {i k : Nat} (h : unfoldRule G i k = some G') :
+    G'.V = G.V ∧ G'.S = G.S ∧
+    ∃ (s : Rule σ K) (y : σ) (others : List (Rule σ K)) (α β : List σ),
+      y ∉ G.V ∧ s.body = α ++ y :: β ∧
+      (∀ f X x, stepL G.V G.rules f X x
+        = (if s.head = X then s.w * Wbody G.V f (α ++ y :: β) x else 0) + stepL G.V others f X x) ∧
+      (∀ g X x, stepL G.V G'.rules g X x
+        = stepL G.V others g X x +
+          (if s.head = X then ((G.rules.filter (fun r => r.head = y)).map fun r =>
+            (s.w * r.w) * mid3 G.V g (Wbody G.V g r.body) g α β x).sum else 0)) := by
+  obtain ⟨s, y, hs, hy, hV, rfl⟩ := unfoldRule_inv h
+  refine ⟨rfl, rfl, s, y, ((G.rules.zipIdx.filter (fun p => p.2 ≠ i)).map (·.1)), s.body.take k, s.body.drop (k+1), hV, body_split s.body k y hy, ?_, ?_⟩
+  · intro f X x
+    rw [stepL_perm G.V (others_perm G.rules i s hs), stepL_cons, ← body_split s.body k y hy]
+  · intro g X x
+    simp only
+    rw [stepL_mkRules, stepL_append, stepL_news]
+    congr 1
+    split
+    · congr 1; apply List.map_congr_left; intro r _
+      rw [Wbody_mid_body]
+    · rfl
+
+/-- **C06.12 (⊑)** unfolding never loses weight at any level -/
+theorem unfold_le {G G' : CFG σ K} {i k : Nat} (h : unfoldRule G i k = some G') (n : Nat) (X : σ)
+    (x : List σ) : WN G n X x ≼ WN G' n X x := by
+  obtain ⟨hV, _, s, y, others, α, β, hy, hb, hG, hG'⟩ := unfold_steps h
+  induction n generalizing X x with
+  | zero => exact le_rfl' _
+  | succ n ih =>
+    rw [WN_succ, WN_succ, hV, hG, hG', add_comm]
+    refine add_le' (stepL_le _ _ _ _ ih X x) ?_
+    split
+    · cases n with
+      | zero =>
+        have : Wbody G.V (WN G 0) (α ++ y :: β) x = 0 :=
+          Wbody_eq_zero_of_sym_zero G.V (WN G 0) y hy (fun _ => rfl) _ (by simp) x
+        rw [this, mul_zero]; exact zero_le' _
+      | succ m =>
+        rw [s_term G.V (WN G (m+1)) (WN G m) s.w α β y hy (G.rules.filter (fun r => r.head = y))
+          (fun v => by simp only [WN, lsum_eq_sum]) x]
+        apply sum_le'; intro r _
+        refine mul_le' (le_rfl' _) (mid3_le _ _ _ _ _ _ _ _ _ ih ?_ ih x)
+        intro v
+        exact Wbody_le _ _ _ _ (fun t _ u => le_trans' (WN_le_succ G m t u) (ih t u)) v
+    · exact le_rfl' _
+
+/-- **C06.12 (⊒)** … and what the unfolded grammar has at level `n`, the original has at level `2n` -/
+theorem unfold_ge {G G' : CFG σ K} {i k : Nat} (h : unfoldRule G i k = some G') (n : Nat) (X : σ)
+    (x : List σ) : WN G' n X x ≼ WN G (2 * n) X x := by
+  obtain ⟨hV, _, s, y, others, α, β, hy, hb, hG, hG'⟩ := unfold_steps h
+  induction n generalizing X x with
+  | zero => exact le_rfl' _
+  | succ n ih =>
+    have ih1 : ∀ t u, WN G' n t u ≼ WN G (2 * n + 1) t u :=
+      fun t u => le_trans' (ih t u) (WN_le_succ G _ t u)
+    rw [show 2 * (n + 1) = (2 * n + 1) + 1 by omega, WN_succ, WN_succ, hV, hG, hG', add_comm]
+    refine add_le' ?_ (stepL_le _ _ _ _ ih1 X x)
+    split
+    · rw [s_term G.V (WN G (2*n+1)) (WN G (2*n)) s.w α β y hy (G.rules.filter (fun r => r.head = y))
+        (fun v => by simp only [WN, lsum_eq_sum]) x]
+      apply sum_le'; intro r _
+      refine mul_le' (le_rfl' _) (mid3_le _ _ _ _ _ _ _ _ _ ih1 ?_ ih1 x)
+      intro v
+      exact Wbody_le _ _ _ _ (fun t _ u => ih t u) v
+    · exact le_rfl' _
+
+/-- **C06.12** `unfold(i, k)` preserves the weighted language in the limit: the two level-indexed
+approximation sequences are cofinal in the natural preorder of the semiring -/
+theorem unfold_preserves {G G' : CFG σ K} {i k : Nat} (h : unfoldRule G i k = some G') (n : Nat)
+    (X : σ) (x : List σ) : WN G n X x ≼ WN G' n X x ∧ WN G' n X x ≼ WN G (2 * n) X x :=
+  ⟨unfold_le h n X x, unfold_ge h n X x⟩
+
+/-- consequence: where the natural preorder is antisymmetric (ℕ, ℝ≥0, Boolean, tropical, …) and the
+original grammar's weight of `x` has stabilised from level `N` on, the unfolded grammar has the same
+weight from level `N` on -/
+theorem unfold_limit {G G' : CFG σ K} {i k : Nat} (h : unfoldRule G i k = some G')
+    (hanti : ∀ a b : K, a ≼ b → b ≼ a → a = b) (N : Nat) (X : σ) (x : List σ) (L : K)
+    (hstab : ∀ m, N ≤ m → WN G m X x = L) (n : Nat) (hn : N ≤ n) : WN G' n X x = L := by
+  have h1 := unfold_le h n X x
+  have h2 := unfold_ge h n X x
+  rw [hstab n hn] at h1
+  rw [hstab (2 * n) (by omega)] at h2
+  exact hanti _ _ h2 h1
+
+end Unfold
+
 /-! ### non-vacuity (grammars of `Proofs/Struct.lean`, weights in `ℕ`) -/
 section Examples
 
@@ -201,6 +573,21 @@ example : WN (separateStart structExG 7) 3 7 [1, 1, 1, 1] = 18 :=
 def sepStartBadG : CFG ℕ ℕ := ⟨1, [1], [⟨2, 1, [1, 1]⟩]⟩
 example : Fresh sepStartBadG 7 := ⟨by decide, by decide, by decide⟩
 example : WN (separateStart sepStartBadG 7) 2 7 [1] = 1 ∧ WN sepStartBadG 1 1 [1] = 0 := by decide
+
+-- `unfold`: `0 → 2 1 (2); 2 → 1 (3) | 2 1 (1)`; unfold the `2` in the first rule
+def unfExG : CFG ℕ ℕ := ⟨0, [1], [⟨2, 0, [2, 1]⟩, ⟨3, 2, [1]⟩, ⟨1, 2, [2, 1]⟩]⟩
+def unfExG' : CFG ℕ ℕ :=
+  ⟨0, [1], [⟨3, 2, [1]⟩, ⟨1, 2, [2, 1]⟩, ⟨6, 0, [1, 1]⟩, ⟨2, 0, [2, 1, 1]⟩]⟩
+theorem unfEx_eq : unfoldRule unfExG 0 0 = some unfExG' := by rfl
+example : unfoldRule unfExG 0 1 = none := by rfl   -- position 1 holds a terminal
+-- the levels really shift: weight 6 of `1 1` appears at level 1 after, at level 2 before
+example : WN unfExG 1 0 [1, 1] = 0 ∧ WN unfExG' 1 0 [1, 1] = 6 ∧ WN unfExG 2 0 [1, 1] = 6 := by
+  decide
+example : WN unfExG 1 0 [1, 1] ≼ WN unfExG' 1 0 [1, 1] ∧
+    WN unfExG' 1 0 [1, 1] ≼ WN unfExG 2 0 [1, 1] := unfold_preserves unfEx_eq 1 0 [1, 1]
+-- the preorder is antisymmetric on `ℕ`, so `unfold_limit` applies there
+example : ∀ a b : ℕ, a ≼ b → b ≼ a → a = b := by
+  rintro a b ⟨c, rfl⟩ ⟨d, h⟩; omega
 
 end Examples
 end Genlm
